@@ -203,6 +203,45 @@ func (e *e6Ctx) effects(isObj func(ssa.Value) bool, depth int) ([]string, map[st
 					}
 					continue
 				} else {
+					// an unexported helper that works on the object under construction (applyModifiers(m, mods),
+					// fillDefaults(d)): its effects are the builder's effects — inlined with the helper's parameters
+					// replaced by the arguments
+					if sf := cc.StaticCallee(); sf != nil && inModule(sf) && sf.Blocks != nil && sf.Signature.Recv() == nil && !token.IsExported(sf.Name()) && sf.Parent() == nil && e.depth < 3 && len(sf.Blocks) <= 12 {
+						objIdx := -1
+						for ai, a := range cc.Args {
+							if isObj(stripIface(a)) {
+								objIdx = ai
+							}
+						}
+						if objIdx >= 0 && objIdx < len(sf.Params) {
+							sub := newE6(e.c, sf)
+							sub.depth, sub.allCalls = e.depth+1, e.allCalls
+							for i, p := range sf.Params {
+								if i < len(cc.Args) && i != objIdx {
+									sub.px.subst[e.c.Sx().Of(p).String()] = e.argDesc(cc.Args[i])
+								}
+							}
+							op := ssa.Value(sf.Params[objIdx])
+							subLines, subPre := sub.effects(func(v ssa.Value) bool { return v == op }, depth+1)
+							base := e.conds(b, pre)
+							for p := range subPre {
+								pre[p] = true
+							}
+							for _, l := range subLines {
+								if strings.HasPrefix(l, "return") || strings.Contains(l, "] return") {
+									continue
+								}
+								own, rest := "", l
+								if strings.HasPrefix(l, "[if ") {
+									if j := strings.Index(l, "] "); j > 0 {
+										own, rest = l[:j+2], l[j+2:]
+									}
+								}
+								lines = append(lines, mergeConds(base, own)+rest)
+							}
+							continue
+						}
+					}
 					// plain function of the module
 					if sf := cc.StaticCallee(); e.allCalls && sf != nil && inModule(sf) && sf.Signature.Recv() == nil && !strings.HasPrefix(sf.Name(), "Opt") && !strings.HasPrefix(sf.Name(), "With") && !strings.HasPrefix(sf.Name(), "Is") && sf.Name() != "PrependModifiers" {
 						if _, isHelper := e.expandHelper(x, func(sub *e6Ctx, v ssa.Value) string { return "" }); isHelper {
